@@ -62,9 +62,20 @@ Fixpoint doc_eqb (a b : doc) : bool :=
   end.
 Definition named_eqb {A} (e : A -> A -> bool) (a b : str * A) : bool :=
   str_eqb (fst a) (fst b) && e (snd a) (snd b).
+Definition set_eqb (a b : list str) : bool :=
+  forallb (fun x => mem_str x b) a && forallb (fun x => mem_str x a) b.
+(* dicts: same key/value pairs *)
+Definition dict_eqb (a b : list (str * str)) : bool :=
+  forallb (fun p => opt_str_eqb (lookup_str (fst p) b) (Some (snd p))) a &&
+  forallb (fun p => opt_str_eqb (lookup_str (fst p) a) (Some (snd p))) b.
+Definition attrs_eqb (a b : rattrs) : bool :=
+  opt_str_eqb (fst (a_logsource a)) (fst (a_logsource b)) &&
+  opt_str_eqb (fst (snd (a_logsource a))) (fst (snd (a_logsource b))) &&
+  opt_str_eqb (snd (snd (a_logsource a))) (snd (snd (a_logsource b))) &&
+  dict_eqb (a_custom a) (a_custom b) && dict_eqb (a_state a) (a_state b) && set_eqb (a_applied a) (a_applied b).
 Definition rule_eqb (a b : rule) : bool :=
   list_eqb (named_eqb det_eqb) (r_dets a) (r_dets b) && str_eqb (r_cond a) (r_cond b) &&
-  list_eqb str_eqb (r_fields a) (r_fields b).
+  list_eqb str_eqb (r_fields a) (r_fields b) && attrs_eqb (r_attrs a) (r_attrs b).
 
 Inductive qres := QNone | QToks (ts : list tok) | QBad.
 
@@ -87,6 +98,8 @@ Record tcase := {
   tc_in : rule;               (* rule as loaded (detections after modifiers) *)
   tc_out : rule;              (* implementation: rule after ProcessingPipeline.apply *)
   tc_rw : rdocs;              (* harness: hand-rewritten documents *)
+  tc_attrs : rattrs;          (* harness: documented rule attributes after the pipeline (log source, custom attributes, state, applied) *)
+  tc_fields : list str;       (* harness: documented fields list after the pipeline *)
   tc_q1 : qres;               (* implementation: query of (rule, pipeline) *)
   tc_q2 : qres;               (* implementation: query of the hand-rewritten rule, no pipeline *)
   tc_natoms : nat
@@ -95,9 +108,15 @@ Record tcase := {
 Definition judge_tr (c : tcase) : N :=
   let model := apply_pipeline (tc_pipe c) (tc_in c) in
   let spec := list_eqb (named_eqb doc_eqb) (rewrite_pipeline (tc_pipe c) (rdocs_of (tc_in c))) (tc_rw c)
-              && tt_eq (tc_natoms c) (tc_q1 c) (tc_q2 c) in
-  bits (rule_eqb model (tc_out c)) spec (pipeline_ok (tc_pipe c) (tc_in c))
-       (negb (rule_eqb (tc_in c) (tc_out c))).
+              && tt_eq (tc_natoms c) (tc_q1 c) (tc_q2 c)
+              && attrs_eqb (tc_attrs c) (r_attrs (tc_out c)) && list_eqb str_eqb (tc_fields c) (r_fields (tc_out c)) in
+  bits (rule_eqb model (tc_out c) && rules_consistent (tc_pipe c) (tc_in c)) spec (pipeline_ok (tc_pipe c) (tc_in c))
+       (* non-trivial: something other than the marks of applied items changed *)
+       (negb (rule_eqb (tc_in c)
+                       (mkRule (r_dets (tc_out c)) (r_cond (tc_out c)) (r_fields (tc_out c))
+                               (mkA (a_logsource (r_attrs (tc_out c))) (a_custom (r_attrs (tc_out c)))
+                                    (a_state (r_attrs (tc_out c))) (a_applied (r_attrs (tc_in c)))))) ||
+        negb (list_eqb (named_eqb doc_eqb) (rdocs_of (tc_in c)) (tc_rw c))).
 
 (* for --replay *)
 Definition model_tr (c : tcase) : rule := apply_pipeline (tc_pipe c) (tc_in c).
